@@ -434,6 +434,21 @@ def menu():
                 lambda: glom({'a': 1}, (Match({A.key: int}), Coalesce(S.key, default='gone'))), 'gone'))
     out.append(('matchdict-key-binding-not-in-other-value',
                 lambda: glom({'a': 1, 7: 2}, Match({A.key & str if False else Regex(r'(?P<pre>a)'): int, int: Auto(Coalesce(S.pre, default='gone'))})), {'a': 1, 7: 'gone'}))
+    from glom.matching import Required, Optional as MOptional
+    out.append(('matchdict-Required-key-binding-to-own-value',
+                lambda: glom({'a': 1, 'b': 2}, Match({Required(A.key): Auto(S.key)})), {'a': 'a', 'b': 'b'}))
+    out.append(('matchdict-Required-key-binding-shadows-outer',
+                lambda: glom({'a': 1}, (S(key=Val('outer')), Match({Required(A.key): Auto(S.key)}))), {'a': 'a'}))
+    out.append(('matchdict-Required-key-binding-not-after',
+                lambda: glom({'a': 1}, (Match({Required(A.key): int}), Coalesce(S.key, default='gone'))), 'gone'))
+    out.append(('matchdict-Required-regex-key-group-to-own-value',
+                lambda: glom({'x1': 1}, Match({Required(Regex(r'(?P<pre>[a-z])\d')): Auto(S.pre)})), {'x1': 'x'}))
+    # a binder wrapped directly in Spec(...): the Spec is a nesting level of its own, the binding stays inside
+    out.append(('Spec-of-binder-does-not-leak-A', lambda: glom(5, (Spec(A.x), Coalesce(S.x, default='gone'))), 'gone'))
+    out.append(('Spec-of-binder-does-not-leak-S', lambda: glom(5, (S(x=Val('outer')), Spec(S(x=Val('inner'))), S.x)), 'outer'))
+    out.append(('Spec-of-binder-in-dict-value', lambda: glom(5, {'a': Spec(A.x), 'b': Coalesce(S.x, default='gone')}), {'a': 5, 'b': 'gone'}))
+    out.append(('Spec-of-reader-sees-enclosing', lambda: glom(5, (A.x, Spec(S.x))), 5))
+    out.append(('Auto-of-binder-does-not-leak', lambda: glom(5, (Auto(A.x), Coalesce(S.x, default='gone'))), 'gone'))
     out.append(('switch-key-binding-to-own-value', lambda: glom(3, Switch([(S(hit=Val('first')), S.hit)])), 'first'))
     out.append(('switch-key-binding-not-after', lambda: glom(3, (Switch([(S(hit=Val('first')), T)]), Coalesce(S.hit, default='gone'))), 'gone'))
     out.append(('regex-group-chains-forward', lambda: glom('ab12', (Regex(r'(?P<w>[a-z]+)(?P<n>\d+)'), S.n)), '12'))
